@@ -20,6 +20,9 @@ type pathExec struct {
 	vals    map[ssa.Value]ssa.Value // loads evaluated at their execution point
 	ints    map[*ssa.Phi]int64      // integer phis folded to constants on this path
 	lenOf   func(call *ssa.Call) (int64, bool)
+	start   *ssa.BasicBlock                 // optional: begin here instead of the entry block
+	stopAt  func(b *ssa.BasicBlock) bool    // optional: stop (successfully) when about to enter such a block
+	stopped *ssa.BasicBlock
 	path    []*ssa.BasicBlock
 	calls   []*ssa.Call // calls executed on the path, in order
 	maxStep int
@@ -100,7 +103,14 @@ func (pe *pathExec) run() (ssa.Instruction, string) {
 	pe.ints = map[*ssa.Phi]int64{}
 	var prev *ssa.BasicBlock
 	b := pe.fn.Blocks[0]
+	if pe.start != nil {
+		b = pe.start
+	}
 	for step := 0; step < pe.maxStep; step++ {
+		if step > 0 && pe.stopAt != nil && pe.stopAt(b) {
+			pe.stopped = b
+			return nil, ""
+		}
 		pe.path = append(pe.path, b)
 		pe.visits[b]++
 		// phis first, simultaneously
